@@ -466,12 +466,18 @@ class OpRecorder:
     set an attribute, create_dataset, resize, item assignment, close) performed through it
     gets the next index; `ops` is the recorded sequence.  With `crash_at = k` the writer is
     stopped *before* operation k: operations 0..k-1 have taken effect, nothing else ever
-    does (a dead process performs no further operation, in particular no close())."""
+    does (a dead process performs no further operation, in particular no close()).
+    With `fault` (a callable returning an exception instance) operation k is not performed
+    but RAISES that exception instead (disk full, interrupt, out of memory): the writer is not
+    dead, the exception unwinds through the real code's with/try/finally/except handlers and
+    every file operation they perform (a close() in a finally) DOES take effect."""
 
-    def __init__(self, h5, crash_at=None, on_crash=None):
+    def __init__(self, h5, crash_at=None, on_crash=None, fault=None):
         self.h5 = h5
         self.crash_at = crash_at
         self.on_crash = on_crash
+        self.fault = fault
+        self.fired = False
         self.ops = []
         self.dead = False
         self.files = []
@@ -482,7 +488,10 @@ class OpRecorder:
     def _pre(self):
         if self.dead:
             raise Crash()
-        if self.crash_at is not None and len(self.ops) == self.crash_at:
+        if self.crash_at is not None and not self.fired and len(self.ops) == self.crash_at:
+            self.fired = True
+            if self.fault is not None:
+                raise self.fault()
             self.dead = True
             if self.on_crash is not None:
                 self.on_crash(self)
@@ -594,6 +603,33 @@ class _PDs:
 
     def __getattr__(self, n):
         return getattr(self._d, n)
+
+
+class InjectedDiskFull(OSError):
+    """what h5py raises when a write hits a full disk"""
+
+    def __init__(self):
+        OSError.__init__(self, errno.ENOSPC, "Can't synchronously write data (file write failed: No space left on device)")
+
+
+class InjectedInterrupt(KeyboardInterrupt):
+    """SIGINT delivered while the file operation runs"""
+
+
+class InjectedMemoryError(MemoryError):
+    pass
+
+
+FAULTS = {"OSError": InjectedDiskFull, "KeyboardInterrupt": InjectedInterrupt, "MemoryError": InjectedMemoryError}
+
+
+def flush_open(rec):
+    for f in rec.files:
+        try:
+            if f:
+                f.flush()
+        except Exception:  # noqa
+            pass
 
 
 def real_crash(rec):
